@@ -21,7 +21,7 @@ P = {
    "In-use FAT entries == reachable chains whenever no file is open; out-of-space errors must not be premature (vs. a FAT scan before the call); fill-to-full / release / refill cycles check that the bytes accepted equal the free capacity in every cycle, that they read back and that delete/truncate return every cluster.",
    "Trusts the independent FAT scan."),
  "C06": ("exploration", "dirgen", "4.6", "PBT over byte-level directory contents, differential against independent reader",
-   "Byte-level generated directories (live/deleted/LFN/label slots, multi-cluster fragmented chains, FAT16 roots, FAT32 roots anywhere) listed and looked up through the crate and through the independent reader; then after create/delete/mkdir histories.",
+   "Byte-level generated directories (live/deleted/LFN/label/junk slots, end markers followed by stale slots, multi-cluster fragmented chains, FAT16 roots, FAT32 roots anywhere) listed and looked up through the crate and through the independent reader, including every sub-directory an entry designates and its way back; then after create/delete/mkdir histories.",
    "Trusts the independent reader's listing rules (FAT specification)."),
  "C07": ("exploration", "fsx", "4.7", "stateful PBT against a decision table from the Mode/Error documentation",
    "Open/delete/mkdir/open_dir/write matrix in arbitrary prior states; exact variants where documented, any-error where not; refused calls must leave the medium byte-identical.",
@@ -45,7 +45,7 @@ P = {
    "Every single-bit flip of a data block + CRC (enumerated), every bit of the CSD block with CRC off (enumerated), bursts, wrong tokens, rejected writes, wrong CMD8 echo, SPI errors and dead/busy/garbage cards from generated byte positions; Ok only with correct data; Err where the property requires it; recovery after power-cycle; SPI byte budget per driver call enforced by the card.",
    "Termination bound: 20,000,000 SPI bytes per driver call (far above what the driver's documented retry budgets allow)."),
  "C14": ("exploration", "sdsim", "5.3", "PBT with protocol-checking simulated card (monitor)",
-   "All MOSI bytes of all generated fault-free runs checked against SPI-mode rules: frame, CRC-7, busy, ACMD prefix, init order, data tokens, 512+2 framing, stop tokens.",
+   "All MOSI bytes of all generated fault-free runs checked against SPI-mode rules: frame, CRC-7, busy, ACMD prefix, init order, data tokens, 512+2 framing, stop tokens; second stage on sequences with one injected fault: the healthy prefix and everything sent after the card was power-cycled (calls after errors).",
    "Card modelled as a byte-stream peer that ignores chip-select framing."),
  "C15": ("exploration", "mount", "4.12", "PBT over valid layouts (independent formatter) + boundary/mutated/random sectors",
    "Valid: files placed by the independent formatter are read back through the crate for all BPB parameter combinations; invalid: field boundary values, mutations and random sectors must yield Ok or Err without panic (overflow checks on).",
